@@ -20,6 +20,33 @@ func ReportCommon(h *History, rep Reporter) {
 		rep.Count("path."+p.String(), int64(n))
 	}
 	ReportKeyManager(h, rep)
+	ReportVRF(h, rep)
+}
+
+// ReportVRF emits the VRF counters of a history (VRF beacon support; no-op without the VRF backend).
+func ReportVRF(h *History, rep Reporter) {
+	if h.VRFMon == nil {
+		return
+	}
+	rep.Count("histories_with_vrf", 1)
+	if h.Sc.Runtime != nil {
+		rep.Count("histories_with_vrf_and_runtime", 1)
+	}
+	rep.Count("vrf.threshold."+h.Sc.P.VRF.ThresholdKind, 1)
+	h.VRFMon.Report(rep)
+	if d := h.Gen.vrf; d != nil {
+		for _, k := range d.sortedMoods() {
+			rep.Count("vrf.epoch_mood."+k, int64(d.Moods[k]))
+		}
+	}
+	for _, k := range []string{"vrf-proof", "vrf-proof-by-expired-node", "vrf-resubmit-same", "vrf-key-rotation-after-proof"} {
+		rep.Count("vrf.ok."+k, int64(h.Gen.Notes[k]))
+	}
+	// A monitor without a reporter of its own belongs to a check of another property: what it
+	// found is handed on, not judged here (its assertions are owned by C14).
+	for _, p := range h.VRFMon.Problems {
+		rep.Inconclusive(fmt.Sprintf("VRF monitor (see C14): %s: %s", p.Kind, p.What))
+	}
 }
 
 // ReportKeyManager emits the key manager counters of a history (key manager support; no-op without a key manager).
